@@ -179,8 +179,10 @@ pub fn plan_lifecycle_lp(w: &World, knobs: &Knobs, actor: &mut Actor, l: &Ledger
             ));
         }
         12 if !mine.is_empty() => {
-            // transfer a (locked or unlocked) position to another LP
-            let (pk, _p) = &mine[rng.idx(mine.len())];
+            // transfer a (locked or unlocked) position to another LP; locked ones preferred (only those can be handed over)
+            let locked: Vec<usize> = (0..mine.len()).filter(|i| l.data(&mine[*i].0.token_account).and_then(decode::token_account).map(|t| t.state == 2).unwrap_or(false)).collect();
+            let pick = if !locked.is_empty() && rng.chance(3, 4) { locked[rng.idx(locked.len())] } else { rng.idx(mine.len()) };
+            let (pk, _p) = &mine[pick];
             let others: Vec<&Actor> = w.actors.iter().filter(|a| a.role == actor.role && a.wallet != actor.wallet).collect();
             if !others.is_empty() {
                 let to = others[rng.idx(others.len())];
@@ -224,8 +226,13 @@ pub fn plan_lifecycle_lp(w: &World, knobs: &Knobs, actor: &mut Actor, l: &Ledger
                     },
                     wi::TransferLockedPosition {},
                 ));
-                for i in ixs {
-                    flow.push((tx1(i), "transfer_locked_position".into()));
+                if rng.chance(2, 3) {
+                    // destination set-up and hand-over in one atomic transaction
+                    flow.push((Tx { ixs }, "transfer_locked_position".into()));
+                } else {
+                    for i in ixs {
+                        flow.push((tx1(i), "transfer_locked_position".into()));
+                    }
                 }
             }
         }
